@@ -270,6 +270,36 @@ def slice_norm(t):
     return (b, f + lo, k + hi, ts)
 
 
+STD_WHITESPACE_NOTIONS = ("is_ascii_whitespace", "char::methods::<impl char>::is_whitespace", "<impl char>::is_whitespace", "<impl str>::trim", "<impl str>::trim_start", "<impl str>::trim_end",
+                          "trim_ascii", "trim_ascii_start", "trim_ascii_end", "split_whitespace", "split_ascii_whitespace")
+
+
+def one_whitespace_notion(ctx, rule, F, cfg):
+    """XML whitespace is {space, tab, CR, LF}.  std's notions differ (ASCII adds form feed, Unicode adds much more), so
+    no non-test code of the crate may consult them: every blank test goes through utils::is_whitespace (whose set is
+    checked separately).  Expected count zero; the positive control is that the crate's own predicate *is* found."""
+    hits = []
+    own = 0
+    for b in F.bodies:
+        if is_derive(b) or "::tests::" in b.path or "::test::" in b.path:
+            continue
+        for i, t in b.calls():
+            d, r = callee_of(t)
+            for x in (d, r):
+                if not x:
+                    continue
+                if name_is(x, "utils::is_whitespace"):
+                    own += 1
+                    break
+                if "quick_xml" not in x and any(x.endswith(k) or x.endswith(k + ">") for k in STD_WHITESPACE_NOTIONS):
+                    hits.append((b, t, x))
+                    break
+    for b, t, x in hits:
+        ctx.ob(rule, "std-whitespace:%s:%s" % (sym.short(strip_generics(b.path)), x.split("::")[-1]), False,
+               "std's %s is not XML whitespace ({space, tab, CR, LF}): form feed / Unicode blanks would be treated as blank here" % x.split("::")[-1], loc=b.loc(t["s"]), config=cfg)
+    ctx.ob(rule, "one-whitespace-notion", not hits and own >= 5, "no std whitespace helper is consulted in the crate; utils::is_whitespace is (%d call sites)" % own, config=cfg)
+
+
 def carried_counter(loop_event):
     """(name, value) of the loop-carried integer that is kept or stepped by a constant on this back edge
     (`depth`, `count`, ...), identified by shape and not by its name; None when there is none or several."""
